@@ -988,7 +988,9 @@ theorem tokenizeTemplatePath_kinds (p : Bytes) : ∀ t ∈ tokenizeTemplatePath 
   unfold tokenizeTemplatePath at ht
   simp only at ht
   split at ht
-  · simp only [List.mem_singleton] at ht; subst ht; exact exprKind_string
+  · split at ht
+    · exact lexExpr_kinds _ t ht
+    · simp only [List.mem_singleton] at ht; subst ht; exact exprKind_string
   · exact lexExpr_kinds _ t ht
 
 theorem fromMacroTokens_kinds (m : Bytes) : ∀ t ∈ fromMacroTokens m, ExprKind t.kind := by
